@@ -179,9 +179,14 @@ func (h *Hist) drawBits() uint32 {
 
 func (h *Hist) uniqueHash(tag string) Hash32 {
 	h.ctr++
+	return seedHash(h.r.Seed, h.ctr, tag)
+}
+
+// seedHash derives a 32-byte value from (run seed, counter, tag): cheap on the tape, unique per run.
+func seedHash(seed uint64, ctr uint32, tag string) Hash32 {
 	var b [16]byte
-	binary.LittleEndian.PutUint64(b[:8], h.r.Seed)
-	binary.LittleEndian.PutUint32(b[8:12], h.ctr)
+	binary.LittleEndian.PutUint64(b[:8], seed)
+	binary.LittleEndian.PutUint32(b[8:12], ctr)
 	return sha256.Sum256(append(b[:], tag...))
 }
 
